@@ -98,11 +98,61 @@ PROVED_DETAIL = {
                                           "datetimes/defaults, dayfirst=False",
     "C02_parse_render_us_date_time": "MM/DD/YYYY x {T, space} x {HH:MM, HH:MM:SS} (4 templates), dayfirst=yearfirst=False",
     "C02_parse_render_name_date": "{DD Mon YYYY, DD Month YYYY} x {date only, ' HH:MM', ' HH:MM:SS'} (6 templates), year >= 100",
+    "C02_parse_render_iso_frac": "YYYY-MM-DD{T, space}HH:MM:SS{. ,}f, k = 1..9 fraction digits (36 templates)",
+    "C02_parse_render_mon_dd_yyyy": "Mon DD, YYYY x {date only, ' HH:MM', ' HH:MM:SS'}, year >= 100",
+    "C02_parse_render_month_dd_yyyy": "Month DD, YYYY x {date only, ' HH:MM', ' HH:MM:SS'}, year >= 100",
+    "C02_parse_render_compact": "YYYYMMDD, YYYYMMDD{T, space}HHMM[SS], YYYYMMDDHHMM[SS], YYYYMMDDTHH:MM[:SS] (9 templates)",
+    "C02_parse_render_12h_hm": "YYYY-MM-DD hh:MM[ ]AM|PM", "C02_parse_render_12h_hms": "YYYY-MM-DD hh:MM:SS[ ]AM|PM",
+    "C02_parse_render_mon_dd_yyyy_12h": "Mon DD, YYYY hh:MM[ ]AM|PM, year >= 100",
+    "C02_parse_render_ctime": "ctime(): 'Www Mon DD HH:MM:SS YYYY', day space-padded, year >= 100",
+    "C02_parse_render_rfc_named": "RFC 2822 'Www, DD Mon YYYY HH:MM:SS GMT|UTC', year >= 100",
     "C02_parse_render_iso_utc": "YYYY-MM-DD{T, space}HH:MM:SS + {Z, ' UTC', ' GMT'} (6 templates) -> UTC, when UTC/GMT are "
                                 "not local zone names",
     "C02_parse_render_iso_offset": "YYYY-MM-DDTHH:MM:SS + {+HH:MM, -HH:MM, +HH, -HH} (2 templates x sign), offsets "
                                    "-23:59..+23:59 -> exactly the rendered offset (UTC when zero)",
 }
+
+
+def theorem_for(t):
+    """which parse_render theorem of coq/props/C02.v covers template t (None = tested-only)"""
+    if t[0] == "cf":
+        return None
+    kd, d, j, tf, k, fl, o = t
+    if kd == 1:
+        return "C02_parse_render_ctime"
+    if kd == 2:
+        return "C02_parse_render_rfc_named" if OFORMS[o] in ("OGMT", "OUTC") else None
+    D, J, T, O = DFORMS[d], JOINERS[j], TFORMS[tf], OFORMS[o]
+    jt = (J, T)
+    if O == "ONone":
+        if D in ("DIso", "DSlashYMD") and J in ("JT", "JSpace") and T in ("THM", "THMS"):
+            return "C02_parse_render_numeric_date_time"
+        if D == "DUS" and J in ("JT", "JSpace") and T in ("THM", "THMS"):
+            return "C02_parse_render_us_date_time"
+        if D in ("DDMonY", "DDMonthY") and jt in (("JNone", "TNone"), ("JSpace", "THM"), ("JSpace", "THMS")):
+            return "C02_parse_render_name_date"
+        if D == "DIso" and J in ("JT", "JSpace") and T == "TFrac" and 1 <= k <= 9:
+            return "C02_parse_render_iso_frac"
+        if D == "DMonDY" and jt in (("JNone", "TNone"), ("JSpace", "THM"), ("JSpace", "THMS")):
+            return "C02_parse_render_mon_dd_yyyy"
+        if D == "DMonthDY" and jt in (("JNone", "TNone"), ("JSpace", "THM"), ("JSpace", "THMS")):
+            return "C02_parse_render_month_dd_yyyy"
+        if D == "DCompact" and jt in (("JNone", "TNone"), ("JT", "TCompactHM"), ("JT", "TCompactHMS"),
+                                      ("JSpace", "TCompactHM"), ("JSpace", "TCompactHMS"), ("JNone", "TCompactHM"),
+                                      ("JNone", "TCompactHMS"), ("JT", "THM"), ("JT", "THMS")):
+            return "C02_parse_render_compact"
+        if D == "DIso" and J == "JSpace" and T == "T12HM":
+            return "C02_parse_render_12h_hm"
+        if D == "DIso" and J == "JSpace" and T == "T12HMS":
+            return "C02_parse_render_12h_hms"
+        if D == "DMonDY" and J == "JSpace" and T == "T12HM":
+            return "C02_parse_render_mon_dd_yyyy_12h"
+        return None
+    if D == "DIso" and J in ("JT", "JSpace") and T == "THMS" and O in ("OZ", "OUTC", "OGMT"):
+        return "C02_parse_render_iso_utc"
+    if D == "DIso" and J in ("JT", "JSpace") and T == "THM" and O in ("OHH_MM", "OHH"):
+        return "C02_parse_render_iso_offset"
+    return None
 
 
 def gen_off(r):
@@ -181,6 +231,7 @@ def main():
     samples = []
     nontrivial = set()
     wf_templates = set()
+    tpl_thm = {}
     n_eval = 0
     cur = PC.real_year()
     reg = os.path.join(C.VERIF, "corpus", "regressions", CID + ".jsonl")
@@ -237,6 +288,7 @@ def main():
                 o["info_dayfirst"], o["info_yearfirst"] = bool(dayf), bool(yearf)
             cases.append((o, s, t, dt, off, exp_dt, exp_off, tzname))
             wf_templates.add(tpl_name(t))
+            tpl_thm[tpl_name(t)] = theorem_for(t)
         # compact time with a dot / comma fraction (+ every offset form)
         cf_reqs, cf_meta = [], []
         for sp in (0, 1):
@@ -261,6 +313,7 @@ def main():
             o["default"] = r.choice([(2003, 9, 25, 0, 0, 0, 0), (2001, 3, 30, 12, 34, 56, 789)])
             cases.append((o, s, t, dt, off, exp_dt, exp_off, tzname))
             wf_templates.add(tpl_name(t))
+            tpl_thm[tpl_name(t)] = None
         model = PC.run_model(orc, [(c[0], c[1]) for c in cases])
         for (o, s, t, dt, off, exp_dt, exp_off, tzn), mdl in zip(cases, model):
             n_eval += 1
@@ -306,10 +359,14 @@ def main():
         "samples": samples,
         "input_distribution": hist,
         "templates_well_formed": len(wf_templates),
+        "templates_status": {n: (th if th in props["theorems"] and props["ok"] else "tested-only")
+                             for n, th in sorted(tpl_thm.items())},
+        "templates_proved_count": sum(1 for th in tpl_thm.values() if th in props["theorems"] and props["ok"]),
+        "templates_tested_only_count": sum(1 for th in tpl_thm.values() if not (th in props["theorems"] and props["ok"])),
         "templates_proved": proved,
         "templates_proved_detail": {n: PROVED_DETAIL.get(n, "") for n in proved},
-        "templates_tested_only": "all well-formed templates not named in templates_proved (spec-differential + "
-                                 "model correspondence only)",
+        "templates_tested_only": "every template whose templates_status is 'tested-only' (spec-differential + model "
+                                 "correspondence only)",
         "disagreements": stats,
         "known_findings_hit": verdict.known_hits,
         "known_finding_examples": {k: v for k, v in verdict.known_examples.items()},
